@@ -31,14 +31,14 @@ func init() {
 			"non-trivial = |T|>=2; distinct = (set digest, format, writer, reader) / (set digest, corruption, entry).",
 		Assumptions: []string{
 			"CID = CIDv1(dag-cbor, sha2-256) computed by ref.CID; CAR/CBOR container framing re-implemented in the harness (ref.BuildCAR / ref.EncodeDagCbor) to plant corruptions",
-			"a CAR block stored under a CID with another codec/hash function that does hash to its data is not judged (the property only requires failure when the CID does not hash to the data)",
+			"a CAR block stored under a CID with another codec / hash function / CID version that does hash to its data may be refused or accepted, but if accepted the token must be filed under the CID of its sealed bytes",
 		},
 		Shards:      shards(8, 16),
 		Run:         runC17,
 		MinEvals:    floor(1800, 50000),
 		MinDistinct: floor(800, 20000),
 		RequiredCells: func(string) []string {
-			cells := []string{"size=0", "size=1", "size=2", "size=5", "size=40", "get/delegation", "get/invocation", "get/all"}
+			cells := []string{"foreign-cid/raw-codec", "foreign-cid/sha2-512", "foreign-cid/cidv0", "size=0", "size=1", "size=2", "size=5", "size=40", "get/delegation", "get/invocation", "get/all"}
 			for _, f := range containerNames {
 				for _, wv := range []string{"bytes", "stream"} {
 					for _, rv := range []string{"bytes", "stream"} {
@@ -396,8 +396,35 @@ func runC17(w *mon.W) {
 				otherCid = set[(victim+1)%len(set)].cid
 			}
 			expectFail("car/wrong-cid", buildCAR(carBlocks(func(i int, c cid.Cid, d []byte) (cid.Cid, []byte) { return otherCid, d }), -1, 0), 1)
-			// same digest algorithm family but sha2-512 label over sha2-256 bytes
-			_ = mh.SHA2_512
+		}
+		// a section CID that does hash to its data but is not the UCAN form (raw codec, sha2-512):
+		// reading may fail, but if it succeeds every token must still be filed under the CID of its
+		// sealed bytes
+		for _, alt := range []string{"raw-codec", "sha2-512", "cidv0"} {
+			alt := alt
+			data := buildCAR(carBlocks(func(i int, c cid.Cid, d []byte) (cid.Cid, []byte) {
+				switch alt {
+				case "raw-codec":
+					return cid.NewCidV1(0x55, c.Hash()), d
+				case "sha2-512":
+					h, _ := mh.Sum(d, mh.SHA2_512, -1)
+					return cid.NewCidV1(0x71, h), d
+				default:
+					return cid.NewCidV0(c.Hash()), d
+				}
+			}), -1, 0)
+			for _, rstream := range []bool{false, true} {
+				rd, err := readContainer(data, 1, rstream, func(b []byte) io.Reader { return bytes.NewReader(b) })
+				w.Eval(1)
+				w.Cover("foreign-cid/" + alt)
+				w.Distinct(digest, "foreign-cid", alt, victim, rstream)
+				if err != nil {
+					continue
+				}
+				checkReader(w, rd, set, "car-foreign-cid-"+alt, func() map[string]any {
+					return map[string]any{"format": "car", "victim_entry_stored_under": alt, "entry": victim, "container_hex": mon.Hex(capBytes(data, 8192))}
+				})
+			}
 		}
 		expectFail("car/length-off-by-one", buildCAR(carBlocks(func(i int, c cid.Cid, d []byte) (cid.Cid, []byte) { return c, d }), victim, gen.Pick(r, []int{1, -1})), 1)
 		// the container file itself cut inside a section: right after the section's length
